@@ -26,6 +26,8 @@ def lleContract {N : Nat} (κ : Mat N N Fix) (nb : Nb N) (tshift : Fix) (wraw : 
     let ii : Fin N := ⟨i, hi.2.1⟩
     let G := (lleSystemD κ ii (nb.f ii) tshift).get
     let w : Vec k Fix := vecOf (wraw[i]!) k
+    -- all neighbours coincide with the sample (zero local Gram matrix, zero trace): the system has no solution
+    if (List.finRange k).all (fun a => (List.finRange k).all fun b => (G a b).m == 0) then return some "SINGULAR"
     for a in List.finRange k do
       let mut s : Fix := 0
       let mut sa : Fix := 0
@@ -97,6 +99,7 @@ def runModelLle {N : Nat} (hN : 0 < N) (fs : List (String × String)) (κ : Mat 
   let wraw ← needSamples fs "wraw" N (parseVecA parseFix)
   if !(wraw.all (·.size == nb.k)) then throw "wraw shape"
   match lleContract κ nb tshift wraw with
+  | some "SINGULAR" => throw "SKIP:singular-local-system (coincident samples)"
   | some e => throw ("CONTRACT:" ++ e)
   | none => pure ()
   let w : Fin N → Vec nb.k Fix := fun i => vecOf (wraw[i.1]!) nb.k
